@@ -95,6 +95,61 @@ def find_row(rows_obs, local, peer):
     return None
 
 
+def lost_window_updates(case, obs, sender_addr, reader_addr, reader_slot):
+    """Replays the wire of the run.  A *window update* is a payload-free plain ACK from the reader to the sender
+    that repeats the reader's previous acknowledgement number with a larger window and left the reader at an
+    egress that follows a successful non-empty read.  Returns the descriptions of those that were dropped before
+    ever being delivered, or that were overtaken (a segment emitted before them was delivered to the sender
+    after them)."""
+    wire, stamp = [], 0          # wire: [(stamp, pkt)]
+    prev = None                  # previous segment the reader emitted on this connection
+    read_since = False
+    upd, delivered, out = {}, set(), []
+    overtaken = set()
+
+    def to_sender(p):
+        return p[0] == 0 and (p[1], p[3]) == tuple(reader_addr) and (p[2], p[4]) == tuple(sender_addr)
+
+    def deliver(st, p, i):
+        if not to_sender(p):
+            return
+        for u in upd:
+            if u in delivered and st < u and u not in overtaken:
+                overtaken.add(u)
+                out.append("window update emitted at step %d (window %d) was overtaken: the older segment #%d was "
+                           "delivered after it at step %d" % (upd[u][0], upd[u][1], st, i))
+        delivered.add(st)
+
+    for i, (c, o) in enumerate(zip(case["script"], obs["obs"])):
+        n = c[0]
+        if n == "read" and c[1] == reader_slot and o.get("r") == "ok" and o["b"]:
+            read_since = True
+        elif n == "egress":
+            for p in o["pk"]:
+                if to_sender(p):
+                    plain = p[7] == 2 and not p[9]
+                    if plain and read_since and prev is not None and p[6] == prev[6] and p[8] > prev[8]:
+                        upd[stamp] = (i, p[8])
+                    prev = p
+                wire.append((stamp, p))
+                stamp += 1
+            read_since = False
+        elif n in ("deliver", "drop", "dup") and o.get("r") == "ok":
+            st, p = wire[c[1]]
+            if n != "dup":
+                wire.pop(c[1])
+            if n == "drop":
+                if st in upd and st not in delivered:
+                    out.append("window update emitted at step %d (window %d) was dropped at step %d" % (upd[st][0], upd[st][1], i))
+            else:
+                deliver(st, p, i)
+        elif n == "flush":
+            for st, p in wire:
+                deliver(st, p, i)
+            wire = []
+    return out
+
+
 def liveness(case, obs, log, plan):
     """Bounded loss (< retx_max drops in total), then a long fair phase: nothing may be aborted, every accepted
     byte and then EOF must arrive. Failures that show the zero-window signature are the known class."""
@@ -136,7 +191,12 @@ def liveness(case, obs, log, plan):
             inflight = tx["snd_nxt"] - tx["snd_una"]
             pending = tx["send_q"] > inflight or (tx["fin_seq"] is not None and tx["snd_nxt"] == tx["fin_seq"])
             if pending and tx["snd_wnd"] <= inflight:
-                klass = "ZeroWindowStall"
+                lost = lost_window_updates(case, obs, addrs[x][0], addrs[y][0], y)
+                if lost:
+                    klass = "ZeroWindowStall"
+                    fails.append("sender window %d; %s" % (tx["snd_wnd"], lost[0]))
+                else:
+                    fails.append("sender is left with window %d although no window update was dropped or overtaken" % tx["snd_wnd"])
         out.append(("fair run (drops=%d < retx_max=%d): %s" % (plan["drops"], F.full_cfg(case["cfg"])["retx_max"], "; ".join(fails)), klass))
     return out
 
@@ -159,7 +219,7 @@ class Spec(PropSpec):
     props_file = "C06.v"
     coq_targets = ["C06.vo"]
     theorems = ["c06_prefix", "c06_eof_after_all", "c06_handshake_sync", "c06_abort_is_loud", "c06_dup_reacked",
-                "c06_quiescent_complete_partial", "c06_sender_progress", "c06_quiescent_complete_refuted",
+                "c06_acked_delivered", "c06_sender_progress", "c06_quiescent_complete", "c06_window_update_lost_refuted",
                 "c06_no_spurious_abort_partial", "c06_kernel_uses_tcb_on_conn", "c06_nonvacuous"]
     consts = F.NET_CONSTS
     anchors = F.NET_ANCHORS
@@ -178,12 +238,13 @@ class Spec(PropSpec):
         "segments of an earlier incarnation of the same 4-tuple are outside the connection-level system (client ports are never reused before 16384 further connects)",
         "sequence numbers are unbounded naturals (u32 wrap-around not modelled); packet duplication is modelled although the property excludes it",
         "waker delivery is not modelled: the theorems say what a poll returns, the harness polls with a no-op waker",
-        "liveness: proved are deadlock-freedom modulo the zero-window class (acknowledged => delivered, sender progress with an open window); the timed no-spurious-abort statement is partial",
+        "liveness (c06_quiescent_complete) is deadlock-freedom over the schedules `fair_run`: nothing injected, no pure window update (the ACK a read emits) dropped before it was delivered or overtaken by an older segment; everything else may be lost, duplicated, reordered; the timed no-spurious-abort statement is partial",
     ]
-    partial_note = ("c06_quiescent_complete_partial / c06_no_spurious_abort_partial: the liveness half is proved only as "
-                    "(a) acknowledged => delivered + EOF placement, (b) progress whenever the peer window is open, (c) local "
-                    "retransmit-counter facts; not proved: a bound on retransmissions under bounded delay. Refuted on the "
-                    "code as it is: window reopening (class ZeroWindowStall, c06_quiescent_complete_refuted)")
+    partial_note = ("c06_no_spurious_abort_partial: proved are the local retransmit-counter facts (an abort needs retx_max "
+                    "retransmissions retx_threshold passes apart; every advancing ACK and the handshake completion reset "
+                    "them); not proved: the bound on retransmissions under bounded delay. c06_quiescent_complete is "
+                    "proved for all schedules without a lost/overtaken window update; for the others it is refuted on "
+                    "the code as it is (class ZeroWindowStall, c06_window_update_lost_refuted: no persist probe)")
 
     def gen_cases(self, ctx):
         n = 360 if ctx.tier == "quick" else 3000
